@@ -954,7 +954,7 @@ func (g *Gen) unsetRoles() {
 		g.emit(Op{Kind: "genesis-init", KV: sp.kv()})
 		g.dump()
 		for _, ty := range adminTypes {
-			for _, from := range []string{g.acct[0], g.acct[4], ""} {
+			for _, from := range []string{g.acct[0], g.acct[4], "", "not-an-address", " "} {
 				g.adminOp(ty, from)
 			}
 		}
@@ -1526,6 +1526,23 @@ func scnGenesis(g *Gen, budget int, arg string) {
 			g.validFlow(5)
 			g.exportAndReimport()
 			g.config()
+			// a duplicate in ONE keyed list while the others are empty (each list's check stands on its own)
+			for which := 0; which < 5; which++ {
+				d := genSpec{burnPaused: "0", sendPaused: "0", maxBody: "-", nextNonce: "-", threshold: "-"}
+				switch which {
+				case 0:
+					d.attesters = []string{hs(g.pubHex[0]), hs(g.pubHex[1]), hs(g.pubHex[0])}
+				case 1:
+					d.limits = []string{hs("uusdc") + ":5", hs("other") + ":6", hs("uusdc") + ":7"}
+				case 2:
+					d.pairs = []string{fmt.Sprintf("1:%x:%s", token(1), hs("uusdc")), fmt.Sprintf("2:%x:%s", token(1), hs("uusdc")), fmt.Sprintf("1:%x:%s", token(1), hs("other"))}
+				case 3:
+					d.used = []string{"1:5", "2:5", "1:5"}
+				case 4:
+					d.messengers = []string{fmt.Sprintf("1:%x", messengerAddr(1)), fmt.Sprintf("2:%x", messengerAddr(2)), fmt.Sprintf("1:%x", messengerAddr(3))}
+				}
+				g.emit(Op{Kind: "genesis-validate", KV: d.kv()})
+			}
 		}
 		sp := g.randomGenesis()
 		v := g.emit(Op{Kind: "genesis-validate", KV: sp.kv()})
